@@ -65,6 +65,10 @@ Keyed(L) ==
 (* keyed members whose key value is null, next to members of the same shape (the domain of SetKeys is respected: *)
 (* every member carries the key; members lacking it appear only in perturbed targets)                            *)
 KeyedNull == {Arr(t) : t \in {u \in TuplesUpTo({KObj(Null, N1), KObj(Null, N2), KObj(N1, N1), KObj(N1, N2)}, 2) : UniqueIds(u)}}
+(* keyed members with TWO fields besides the key: several hunks address the same member one after the other *)
+KObj3(i, x, y) == Obj([j \in {"id", "v", "w"} |-> IF j = "id" THEN i ELSE IF j = "v" THEN x ELSE y])
+KeyedWide == {Arr(t) : t \in {u \in TuplesUpTo({KObj3(i, x, y) : i \in {N1, N2}, x \in {N1, N2}, y \in {N1, Arr(<<N1, N2>>)}}, 2) : UniqueIds(u)}}
+
 (* members identified by a key whose VALUE is a container (an array, an object holding an array); distinct under every reading *)
 KeyedContIds == {Arr(<<N1, N2>>), Arr(<<N1, N3>>), O1("k0", Arr(<<N2, N3>>)), Str("s0")}
 KeyedCont == {Arr(t) : t \in {u \in TuplesUpTo({KObj(i, x) : i \in KeyedContIds, x \in {N1, N2}}, 2) : UniqueIds(u)}}
